@@ -156,7 +156,12 @@ def bar(
 @check_ndim(2)
 def map(h2: Histogram2D, **kwargs) -> go.Figure:
     """Heatmap."""
-    data = [go.Heatmap(z=h2.frequencies, **kwargs)]
+    # One cell per bin at the position of the bin: rows of `z` run along the y axis
+    try:
+        x, y = h2.get_bin_edges(0), h2.get_bin_edges(1)
+    except ValueError:  # Inconsecutive bins have no common edges
+        x, y = h2.get_bin_centers(0), h2.get_bin_centers(1)
+    data = [go.Heatmap(z=h2.frequencies.T, x=x, y=y, **kwargs)]
     layout = go.Layout()
     figure = go.Figure(data=data, layout=layout)
     return figure
